@@ -18,9 +18,12 @@ def a_cases(tier):
     cs = []
     for ch in ([["A", None]], [["A", 0.5]], [["A", 0.0]], [["M", 0.0, True]], [["M", None, True]], [["M", 0.5, False]], [["S", 2], ["A", None]], [["F", 1], ["A", None]]):
         for starts in ((0, 0), (1, 0), (2, 0), (0, 1), (0, 2)):
+            if ch[0][0] == "F" and starts[0] > 0:
+                continue  # late producer + DelayFixed upstream of a push-based adapter: the open C04 finding (connect fails), not C12's subject
             for pi in (True, False):
                 cs.append(F.pair(ch, end=5 if q else 7, starts=starts, pull_initial=pi))
-        cs.append(F.pair(ch, end=5 if q else 7, starts=(2, 0), order=("B", "A")))
+        if ch[0][0] != "F":
+            cs.append(F.pair(ch, end=5 if q else 7, starts=(2, 0), order=("B", "A")))
     return cs
 
 
@@ -37,6 +40,14 @@ def cfgs(tier):
                 # per-time sums: units x time, compared in (source units x hour); absolute sums: source units
                 conv = (u + "*h" if u else "h") if per_time else (u or "dimensionless")
                 out.append(dict(consumers=[[["M", st, per_time, 1]]], window=W, units=u, convert_to=conv))
+    # other time scales: one unit = 2 microseconds / one week (the integral is compared in source units x second resp. x week)
+    for unit, uname, usec in ((2, "us", 2e-6), (7 * 86400 * 10**6, "week", 7 * 86400.0)):
+        for st in (None, 0.0, 0.5):
+            out.append(dict(consumers=[[["A", st]]], window=2, units="mm/h", convert_to="mm/h", unit_us=unit))
+            out.append(dict(consumers=[[["M", st, True, 1]]], window=2, units="mm/h", convert_to="mm/h*" + ("s" if uname == "us" else "week"), value_scale=2e-6 if uname == "us" else 1, unit_us=unit))
+            out.append(dict(consumers=[[["M", st, False, 1]]], window=2, units="mm", convert_to="mm", unit_us=unit))
+    out.append(dict(consumers=[[["A", None]]], window=2, units="mm/h", convert_to="mm/h", payload="masked"))
+    out.append(dict(consumers=[[["M", 0.0, True, 1]]], window=2, units="mm/h", convert_to="mm", payload="masked"))
     # reduced units of the per-time sum: mm/h x s must come out as mm
     out.append(dict(consumers=[[["M", 0.0, True, 1]]], window=2, units="mm/h", convert_to="mm", expect_units="mm"))
     out.append(dict(consumers=[[["M", None, True, 1]]], window=2, units="m/s", convert_to="m/s*h", expect_units="m"))
